@@ -519,6 +519,16 @@ def baseline_rollouts_in_eval_mode(ctx: Ctx):
         ctx.ob("C17.g", f"{qn}:policy-in-eval-mode", ok, fi.loc,
                f"`{pol}.eval()` before the policy is called: {ok}" + ("" if ok else " -- the baseline value of an instance then depends on the batch it is rolled out in"),
                construct=f"{rel}:{qn}:eval-mode")
+        # C17.g (2) ... and it decodes GREEDILY whatever the policy's own phase defaults are: every call of the policy in the
+        # rollout passes the literal decode_type="greedy" (a `phase="val"` call decodes with the policy's configurable
+        # val_decode_type, "sampling" / multistart included -- the attached value is then a sampled reward)
+        for k, c in enumerate(sorted(calls, key=lambda c: (c.lineno, c.col_offset))):
+            dt = [kw for kw in c.keywords if kw.arg == "decode_type"]
+            okd = len(dt) == 1 and isinstance(dt[0].value, ast.Constant) and dt[0].value.value == "greedy"
+            ctx.ob("C17.g", f"{qn}:policy-call#{k}:decodes-greedily", okd, f"{rel}:{c.lineno}",
+                   f"`{ast.unparse(c)[:80]}`: decode_type=\"greedy\" given literally: {okd}" +
+                   ("" if okd else " -- the rollout decodes with whatever the policy is configured to use for that phase; the value attached to item i is not the baseline policy's greedy reward"),
+                   construct=f"{rel}:{qn}:policy-call:decode-type")
 
 
 def run_thorough(ctx: Ctx):
